@@ -132,12 +132,13 @@ def run(ctx):
         r2.guarded("wiring", S, lambda: rule_wiring(f2, r2))
         r2.guarded("colour-tables", "anstyle::color", lambda: rule_colour_tables(f2, r2))
     rep.guarded("consts", E, lambda: rule_consts(facts, rep))
+    rep.guarded("debug", E, lambda: rule_debug(facts, rep))
     rep.guarded("bitwise", E, lambda: rule_bitwise(facts, rep))
     rep.guarded("operators", "anstyle", lambda: rule_operators(facts, rep))
     rep.guarded("iterators", "anstyle::effect", lambda: rule_iterators(facts, rep))
     rep.guarded("wiring", S, lambda: rule_wiring(facts, rep))
     rep.guarded("colour-tables", "anstyle::color", lambda: rule_colour_tables(facts, rep))
-    for r, n in (("consts", 13), ("bitwise", 7), ("operators", 9), ("iterators", 6), ("wiring", 21), ("colour-tables", 7)):
+    for r, n in (("consts", 13), ("bitwise", 7), ("operators", 9), ("iterators", 6), ("wiring", 21), ("colour-tables", 7), ("debug", 1)):
         rep.floor(r, n)
 
 
@@ -417,6 +418,35 @@ def rule_iterators(facts, rep):
     rep.count(12)
 
 
+def rule_debug(facts, rep):
+    """The debug form names exactly the members: `Debug::fmt` evaluated (the text handed to the formatter, `write!` included) on
+    the empty set, every single effect, every pair, every run of three neighbours and the full set."""
+    import abseval
+    b = facts.body("anstyle", f"<{EFFT} as core::fmt::Debug>::fmt")
+    rep.fn(b["path"])
+    names = list(sgr.EFFECT_ORDER)
+    n = len(names)
+    sets = [0] + [1 << i for i in range(n)] + [(1 << i) | (1 << j) for i in range(n) for j in range(i + 1, n)] + \
+        [7 << i for i in range(n - 2)] + [(1 << n) - 1, 0b101010101010, 0b010101010101]
+    bad = []
+    for v in sets:
+        got = []
+        sink = lambda a_: (got.append(a_[1][1] if a_[1][0] == "str" else str(a_[1])), ("ok", ("unit",)))[1]
+        ev = abseval.Evaluator(facts, "anstyle", {"fmt:sink": sink, "core::fmt::Formatter::<'a>::write_str": sink, "core::fmt::Write::write_str": sink})
+        ev.concrete_strings = True
+        want = "Effects(" + " | ".join(names[i] for i in range(n) if v >> i & 1) + ")"
+        try:
+            r = ev.call_fn("anstyle", b["path"], [("ctor", EFFT, ("int", v)), ("sym", "f")])
+            text = "".join(got)
+            if text != want or r != ("ok", ("unit",)):
+                bad.append(f"{want}: {text!r} (result {r})")
+        except Unrecognised as ex:
+            bad.append(f"not evaluable: {ex}")
+            break
+    rep.count(len(sets))
+    rep.check(not bad, "debug", b["path"], "names-exactly-the-members", f"{len(sets)} effect sets evaluated {bad[:2]}"[:400], loc(b))
+
+
 def rule_wiring(facts, rep):
     st = facts.item("anstyle", "anstyle::style::Style", "Struct")
     fields = [f["name"] for f in st["variants"][0]["fields"]]
@@ -426,10 +456,23 @@ def rule_wiring(facts, rep):
         rep.fn(b["path"])
         start = {"fg": ("sym", "fg"), "bg": ("sym", "bg"), "underline": ("sym", "ul"), "effects": ("sym", "eff")}
         ok, why = False, ""
+        # the value set is the value kept, whatever kind of value it is: each kind of colour (a setter that looks inside its argument
+        # — say, to store a 4-bit colour in another form — shows here), no colour, a symbolic effects value
+        if field == "effects":
+            vals = [("sym", "new"), ("ctor", EFFT, ("int", 0)), ("ctor", EFFT, ("int", 4095))]
+        else:
+            CO = "anstyle::color::Color::"
+            vals = [("none",)] + [("some", ("ctor", CO + "Ansi", ("enum", "anstyle::color::AnsiColor::" + n_))) for n_ in ("Black", "Red", "BrightWhite")] + \
+                [("some", ("ctor", CO + "Ansi256", ("ctor", "anstyle::color::Ansi256Color", ("int", i_)))) for i_ in (0, 9, 255)] + \
+                [("some", ("ctor", CO + "Rgb", ("ctor", "anstyle::color::RgbColor", ("int", 1), ("int", 2), ("int", 3))))]
         try:
-            r, _ = run_fn(facts, b["path"], [("rec", dict(start)), ("sym", "new")])
-            ok = r == ("rec", dict(start, **{field: ("sym", "new")}))
-            why = "" if ok else f"result {str(r)[:160]}"
+            bad_ = []
+            for nv in vals:
+                r, _ = run_fn(facts, b["path"], [("rec", dict(start)), nv])
+                if r != ("rec", dict(start, **{field: nv})):
+                    bad_.append(f"{str(nv)[:70]} -> {str(r[1].get(field) if r[0] == 'rec' else r)[:90]}")
+            ok = not bad_
+            why = "" if ok else f"{bad_[:2]}"
         except Unrecognised as ex:
             why = f"not evaluable: {ex}"
         rep.check(ok, "wiring", b["path"], f"stores-{field}-only", f"`{setter}(v)` returns self with {field} = v and the other three fields unchanged {why}", loc(b))
